@@ -71,6 +71,12 @@ impl World {
         }
         let mut config = service::Config::test(Alias::from_str("alice").unwrap());
         config.peers = PeerConfig::Static;
+        // persistent peers: dialled by initialize(), session kept while disconnected
+        for p in run["persistent"].as_array().map(|a| a.to_vec()).unwrap_or_default() {
+            let p = p.as_u64().unwrap() as usize;
+            let addr = radicle::node::Address::from(net::SocketAddr::from(([8, 8, 8, p as u8], 8776)));
+            config.connect.insert((nids[p], addr).into());
+        }
         if let Some(c) = run["capacity"].as_u64() {
             config.limits.fetch_concurrency = c as usize;
         }
@@ -124,9 +130,28 @@ impl World {
             "connect" => {
                 let p = us(1);
                 let addr = self.addr(p);
-                self.alice.service.connected(self.nids[p], addr, Link::Inbound);
+                // our own dial completing if we have an outbound session being established,
+                // an inbound connection otherwise
+                let link = match self.alice.service.sessions().get(&self.nids[p]) {
+                    Some(s) if s.link.is_outbound() && (s.is_initial() || s.is_connecting()) => Link::Outbound,
+                    _ => Link::Inbound,
+                };
+                self.alice.service.connected(self.nids[p], addr, link);
                 let msg = self.node_ann(p);
                 self.alice.service.received_message(self.nids[p], msg);
+            }
+            "attempted" => {
+                let p = us(1);
+                let addr = self.addr(p);
+                // the wire only reports an attempt for a session it was asked to dial
+                if self.alice.service.sessions().get(&self.nids[p]).map(|s| s.is_initial()).unwrap_or(false) {
+                    self.alice.service.attempted(self.nids[p], addr);
+                }
+            }
+            "wake" => {
+                let now = *self.alice.service.clock() + LocalDuration::from_millis(a[1].as_u64().unwrap() as u128);
+                self.alice.service.tick(now, &Default::default());
+                self.alice.service.wake();
             }
             "disconnect" => {
                 let p = us(1);
@@ -215,7 +240,8 @@ impl World {
                 };
                 let mut f: Vec<usize> = fetching.iter().map(|rid| self.rids.iter().position(|x| x == rid).unwrap() + 1).collect();
                 f.sort();
-                sess.push(json!([p, s.is_connected(), f, s.queue.len()]));
+                let state = if s.is_connected() { "connected" } else if s.is_initial() { "initial" } else if s.is_connecting() { "attempted" } else { "disconnected" };
+                sess.push(json!([p, s.is_connected(), f, s.queue.len(), state]));
             }
         }
         out.emit(&json!({"ev": "step", "op": op, "fetches": fetches, "table": table, "sess": sess, "disc": disc,
